@@ -11,6 +11,8 @@ import (
 	"reflect"
 	"strings"
 	"sync"
+	"sync/atomic"
+	"time"
 	"unsafe"
 
 	"github.com/tmpim/casket/casketfile"
@@ -43,6 +45,20 @@ type c05In struct {
 func setRobin(rr *proxy.RoundRobin, v uint32) {
 	f := reflect.ValueOf(rr).Elem().FieldByName("robin")
 	*(*uint32)(unsafe.Pointer(f.UnsafeAddr())) = v
+}
+
+// c05AbortUp is the parsed upstream with an emergency exit: once abort is set the next Select panics
+// out of a retry loop that does not end
+type c05AbortUp struct {
+	proxy.Upstream
+	abort *int32
+}
+
+func (u *c05AbortUp) Select(r *http.Request) *proxy.UpstreamHost {
+	if atomic.LoadInt32(u.abort) != 0 {
+		panic(c05Abort{})
+	}
+	return u.Upstream.Select(r)
 }
 
 func fnv32a(s string) uint32 {
@@ -274,7 +290,9 @@ func c05Run(in0 interface{}) Result {
 				hosts[i].Unhealthy = 1
 			}
 		}
-		p := proxy.Proxy{Next: handlerFunc(func(w http.ResponseWriter, r *http.Request) (int, error) { return 404, nil }), Upstreams: ups}
+		var abort int32
+		p := proxy.Proxy{Next: handlerFunc(func(w http.ResponseWriter, r *http.Request) (int, error) { return 404, nil }),
+			Upstreams: []proxy.Upstream{&c05AbortUp{Upstream: ups[0], abort: &abort}}}
 		var rd io.Reader = bytes.NewReader(body)
 		if in.Chunked {
 			rd = struct{ io.Reader }{rd} // hides the length: ContentLength = -1
@@ -285,7 +303,31 @@ func c05Run(in0 interface{}) Result {
 		}
 		req.RemoteAddr = "192.0.2.7:4711"
 		rec := httptest.NewRecorder()
-		status, _ := p.ServeHTTP(rec, req)
+		// try_duration is 150ms: a request that has not returned after 5 s never will
+		status, hung := -1, false
+		done := make(chan struct{})
+		go func() {
+			defer close(done)
+			defer func() {
+				if x := recover(); x != nil {
+					if _, ok := x.(c05Abort); !ok {
+						panic(x)
+					}
+					hung = true
+				}
+			}()
+			status, _ = p.ServeHTTP(rec, req)
+		}()
+		select {
+		case <-done:
+		case <-time.After(5 * time.Second):
+			atomic.StoreInt32(&abort, 1)
+			<-done
+		}
+		direct := ""
+		if hung {
+			direct = "Proxy.ServeHTTP did not return within 5s (try_duration 150ms): the retry loop does not end"
+		}
 		final := -1
 		if status == 0 && rec.Code == 200 {
 			fmt.Sscan(rec.Header().Get("X-Backend"), &final)
@@ -317,7 +359,7 @@ func c05Run(in0 interface{}) Result {
 		}
 		return Result{Term: cApp("CRetry", pterm, bs(in.Base), bs(in.Failing), cNatList(tr), cOptNat(final), cBool(complete)),
 			Obs: map[string]interface{}{"trace": tr, "final": final, "status": status, "code": rec.Code, "bodies_complete": complete},
-			Sig: fmt.Sprintf("retry:%s:chunked=%v", in.Policy, in.Chunked), Nontrivial: nfail > 0, Class: fmt.Sprintf("retry:%s:fail%d", in.Policy, nfail)}
+			Direct: direct, Sig: fmt.Sprintf("retry:%s:chunked=%v", in.Policy, in.Chunked), Nontrivial: nfail > 0, Class: fmt.Sprintf("retry:%s:fail%d", in.Policy, nfail)}
 	}
 	panic("bad kind")
 }
